@@ -303,6 +303,31 @@ def check_log_general(run, rule='R19'):
         if sk is None:
             run.error('R19: trlog general branch: no `<matrix> / sin(theta)` definition of the unit skew matrix')
         else:
+            # the division by sin(theta) is reached only where theta is neither 0 nor pi: the identity test and the half-turn test
+            # trace(R) = -1 have both failed on every path to it
+            from ..cfg import CFG, must_facts
+            cfg_ = CFG(f.node)
+            facts_ = must_facts(cfg_)
+            dn = None
+            for st in blk:
+                if isinstance(st, ast.Assign) and isinstance(st.targets[0], ast.Name) and st.targets[0].id == skname:
+                    dn = cfg_.node_of(st)
+            if dn is not None:
+                fs_ = [(fc[1], _subst_pure(canon(fi, fc[2].ast, inline=False), pl)) for fc in facts_.get(dn.id, frozenset())]
+                not_eye = any((not pol) and matches('iseye(_R)', e) is not None for (pol, e) in fs_)
+                half = [e for (pol, e) in fs_ if (not pol) and any(matches(p_, e) is not None for p_ in
+                                                                   ('abs(trace(_R) + 1) < _T', 'abs(1 + trace(_R)) < _T', 'abs(_R.trace() + 1) < _T', 'trace(_R) + 1 < _T',
+                                                                    'isclose(trace(_R), -1, *_A)'))]
+                tr_tests = [e for (pol, e) in fs_ if (not pol) and 'trace' in ast.unparse(e)]
+                if not_eye and half:
+                    run.holds(rule, f.key, 'log: division by sin(theta) guarded', 'reached only after the identity test and the half-turn test %s failed' % src(half[0], 40), f=f)
+                elif not half:
+                    run.violation(rule, f.key, 'log: division by sin(theta) guarded', 'the general branch divides by sin(theta) with theta = acos((trace(R) - 1) / 2), '
+                                  'but no test on its paths excludes the half turn trace(R) = -1 (sin(theta) = 0)%s: at a rotation by pi the result is rounding '
+                                  'noise divided by ~1e-16' % ((': the test %s is not of the form |trace(R) + 1| < tol' % src(tr_tests[0], 40)) if tr_tests else ''), f=f)
+                else:
+                    run.violation(rule, f.key, 'log: division by sin(theta) guarded', 'the general branch divides by sin(theta) without having excluded the identity '
+                                  '(theta = 0)', f=f)
             m = me.ev(sk)
             bad = [(i, j) for i in range(3) for j in range(3) if _unit_reduce(m[i][j]) != s * K[i][j]]
             if not bad:
